@@ -217,11 +217,30 @@ def rule_sign(ctx: Ctx) -> List[Ob]:
             cur: Optional[ast.If] = s
             while cur is not None:
                 t = pex.expand_at(cur.test, cur.test)
-                if isinstance(t, ast.Compare) and len(t.ops) == 1 and isinstance(t.comparators[0], ast.Constant) and t.comparators[0].value == 0 \
-                        and src(strip_sub(t.left)) == "d" and type(t.ops[0]) in (ast.Gt, ast.Lt):
+                # `not (d > 0)` is `d <= 0`, `0 < d` is `d > 0`
+                neg_ = False
+                while isinstance(t, ast.UnaryOp) and isinstance(t.op, ast.Not):
+                    t, neg_ = t.operand, not neg_
+                if isinstance(t, ast.Compare) and len(t.ops) == 1 and isinstance(t.left, ast.Constant) and t.left.value == 0:
+                    FL = {ast.Gt: ast.Lt, ast.Lt: ast.Gt, ast.GtE: ast.LtE, ast.LtE: ast.GtE, ast.Eq: ast.Eq, ast.NotEq: ast.NotEq}
+                    if type(t.ops[0]) in FL:
+                        t = ast.copy_location(ast.Compare(left=t.comparators[0], ops=[FL[type(t.ops[0])]()], comparators=[t.left]), t)
+                if neg_ and isinstance(t, ast.Compare) and len(t.ops) == 1:
+                    NG = {ast.Gt: ast.LtE, ast.Lt: ast.GtE, ast.GtE: ast.Lt, ast.LtE: ast.Gt, ast.Eq: ast.NotEq, ast.NotEq: ast.Eq}
+                    if type(t.ops[0]) in NG:
+                        t = ast.copy_location(ast.Compare(left=t.left, ops=[NG[type(t.ops[0])]()], comparators=t.comparators), t)
+                pins_ = [st for st in cur.body if isinstance(st, ast.Assign) and isinstance(st.targets[0], ast.Subscript)
+                         and src(strip_sub(st.targets[0])) == "x_cp" and src(strip_sub(st.value)) in ("lb", "ub")]
+                strict_d = isinstance(t, ast.Compare) and len(t.ops) == 1 and isinstance(t.comparators[0], ast.Constant) and t.comparators[0].value == 0 \
+                    and src(strip_sub(t.left)) == "d" and type(t.ops[0]) in (ast.Gt, ast.Lt)
+                if pins_ and not strict_d and any(isinstance(x_, ast.Name) and x_.id == "d" for x_ in ast.walk(cur.test)):
+                    for st in pins_:
+                        obs.append(ob("SIGN", "variable is pinned to the bound its direction points to", f, st, False,
+                                      f"`{short(st)}` under `{short(cur.test)}`: not a strict sign test of the direction (d > 0 pins to ub, d < 0 to lb)",
+                                      construct=f"pin under {short(cur.test)}: {short(st)}"))
+                if strict_d:
                     for st in cur.body:
                         if isinstance(st, ast.Assign) and isinstance(st.targets[0], ast.Subscript) and src(strip_sub(st.targets[0])) == "x_cp":
-                            npin += 1
                             b = src(strip_sub(st.value))
                             want = "ub" if isinstance(t.ops[0], ast.Gt) else "lb"
                             ok = b == want
@@ -236,7 +255,6 @@ def rule_sign(ctx: Ctx) -> List[Ob]:
                 and src(strip_sub(st.value.test.left)) == "d" and type(st.value.test.ops[0]) in (ast.Gt, ast.Lt):
             up = isinstance(st.value.test.ops[0], ast.Gt)
             for br, is_true in ((st.value.body, True), (st.value.orelse, False)):
-                npin += 1
                 want = "ub" if (up == is_true) else "lb"
                 b = src(strip_sub(br))
                 obs.append(ob("SIGN", "variable is pinned to the bound its direction points to", f, st, b == want,
@@ -250,7 +268,10 @@ def rule_sign(ctx: Ctx) -> List[Ob]:
             seen.add(k)
             ded.append(o)
     obs = ded
-    need(npin >= 2, "SIGN: pinning branches of the Cauchy loop not found")
+    npin = sum(1 for o in obs if o.inst == "variable is pinned to the bound its direction points to")
+    bounds_pinned = {("ub" if "ub" in o.construct.split(":")[-1] else "lb") for o in obs
+                     if o.inst == "variable is pinned to the bound its direction points to"}
+    need(npin >= 2 and bounds_pinned == {"lb", "ub"}, "SIGN: the two pinning branches (to ub and to lb) of the Cauchy loop were not found")
     # f', f'' and the clamp
     S = Signs("lb", "ub", {"x"}, {"mats.theta": POS})
     defs: Dict[str, ast.expr] = {}
